@@ -62,12 +62,19 @@ class BuildModel(FunctionContract):
         exec_model.always = True
         L._MODELS[_b.exec] = exec_model
         interp.registry.set_calls({'fsic.parser.build_model_definition': definition})
+        import fsic.parser as _fp
+        e['module_names'] = set(vars(_fp))
         return Call([e['symbols']], dict(e['opts']), entry=e)
 
     def post(self, interp, scenario, call, out):
         ctx = interp.ctx
         e = call.entry
         dc, ec = e['definition_calls'], e['exec_calls']
+        import fsic.parser as _fp
+        new_names = sorted(set(vars(_fp)) - e['module_names'])
+        for nm in new_names:
+            delattr(_fp, nm)            # (the module is the real one: undo, so that the next path starts clean)
+        ctx.prove(z3.BoolVal(not new_names), 'building_a_class_binds_nothing_in_the_parser_module', 'frame', props=('C15', 'C13'), note=str(new_names))
         ctx.prove(z3.BoolVal(len(dc) >= 1), 'definition_text_is_built_by_build_model_definition', 'ensures')
         if not dc:
             return
